@@ -21,6 +21,7 @@ from . import common as C
 SPEC = os.path.join(C.VERIF, "spec", "tooltext")
 HARNESS = os.path.join(C.VERIF, "harness", "c17")
 JAVA = "-Xss256m -XX:ParallelGCThreads=2 -Xmx4g"   # several TLC instances run side by side
+JAVA_QUICK = JAVA + " -XX:TieredStopAtLevel=1"      # short runs: do not spend CPU in the optimising JIT
 CHARS = ["", " ", "\t", '"', "'", "\\", "-", "$", "a", "é"]
 
 PKGS = {   # package dir -> (package name, specific harness file)
@@ -274,6 +275,34 @@ def tlc_retry(*a, **kw):
             raise
 
 
+BASH_SCRIPT = r'''while IFS= read -r line; do if eval "set -- $line" 2>/dev/null; then printf '%s' "$#"; for a in "$@"; do printf '\037%s' "$a"; done; printf '\n'; else echo ERR; fi; done'''
+
+
+def posix_selfcheck(chk, cases):
+    """validation of the specification only: the POSIX reading of ShellSplit.tla (field px) against a real shell,
+    on every emitted string without '$' (the spec has no expansions)"""
+    import shutil
+    if not shutil.which("bash"):
+        chk.assumptions.append("no bash on PATH: the POSIX reading of ShellSplit.tla was not validated against a shell")
+        return 0
+    sel = [c for c in cases if 7 not in c["inp"]]
+    inp = "".join(txt(c["inp"]) + "\n" for c in sel)
+    try:
+        r = subprocess.run(["bash", "-c", BASH_SCRIPT], input=inp.encode(), capture_output=True, timeout=600)
+    except subprocess.TimeoutExpired:
+        raise C.Undecided("bash self-validation timed out")
+    lines = r.stdout.decode("utf-8", "replace").split("\n")
+    if r.returncode != 0 or len(lines) < len(sel):
+        raise C.Undecided("bash self-validation did not complete: rc=%s %s" % (r.returncode, r.stderr[-300:]))
+    for c, l in zip(sel, lines):
+        got = {"err": True, "words": []} if l == "ERR" else {"err": False, "words": l.split("\037")[1:]}
+        want = {"err": c["px"]["err"], "words": [txt(w) for w in c["px"]["words"]]}
+        if got != want:
+            raise C.Undecided("ShellSplit.tla (POSIX reading) disagrees with bash on %r: spec %r, bash %r (spec defect)" % (
+                txt(c["inp"]), want, got))
+    return len(sel)
+
+
 def build_testbins(chk):
     common = open(os.path.join(HARNESS, "zz_verif_c17_common_test.go")).read()
 
@@ -293,7 +322,8 @@ def run_suite(chk, s, testbins, workers):
     cfg = os.path.join(rd, name + ".cfg")
     C.write_cfg(cfg, constants=s["consts"], invariants=s["invs"])
     t0 = time.time()
-    res = tlc_retry(SPEC, s["module"], cfg, rd, workers=workers, timeout=3000, parse_json=False, java_opts=JAVA)
+    res = tlc_retry(SPEC, s["module"], cfg, rd, workers=workers, timeout=3000, parse_json=False,
+                    java_opts=JAVA if chk.tier == "thorough" else JAVA_QUICK)
     if not res.ok:
         raise C.Undecided("%s: a law of the specification itself failed in TLC (spec defect): %s\n%s" % (
             name, res.violation, res.out[-1500:]))
@@ -302,6 +332,7 @@ def run_suite(chk, s, testbins, workers):
         raise C.Undecided("%s emitted no cases" % name)
     if s["post"]:
         cases = s["post"](cases)
+    nposix = posix_selfcheck(chk, cases) if s["name"] == "shell-split" else 0
     neg = s["neg"](cases)
     if neg is None:
         raise C.Undecided("%s: no case suitable for the negative control" % name)
@@ -325,7 +356,7 @@ def run_suite(chk, s, testbins, workers):
     mism = [json.loads(line) for line in open(out)]
     C.log("%-22s tlc %5.1fs (%d states)  replay %5.1fs  cases %d  disagreements %d" % (
         name, t1 - t0, res.distinct, time.time() - t1, len(cases), len([m for m in mism if m["case"] != 0])))
-    return dict(suite=s, res=res, cases=cases, stats=stats, mism=mism)
+    return dict(suite=s, res=res, cases=cases, stats=stats, mism=mism, nposix=nposix)
 
 
 def run_impl_model(chk):
@@ -340,7 +371,13 @@ def check(chk):
     thorough = chk.tier == "thorough"
     sd = C.seed()
     S = suites(chk.tier, sd)
+    only = os.environ.get("VERIF_C17_ONLY")     # debugging aid: run the suites whose name starts with one of these
+    if only:
+        S = [s for s in S if any(s["name"].startswith(p) for p in only.split(","))]
+        chk.assumptions.append("PARTIAL RUN: VERIF_C17_ONLY=" + only)
     testbins = build_testbins(chk)
+    if not S:
+        raise C.Undecided("no suite selected")
     njobs = 5 if thorough else 6
     workers = max(2, C.NCPU // 5)
     order = sorted(S, key=lambda s: -s["cost"])
@@ -358,6 +395,7 @@ def check(chk):
         C.log("note: layer B (key-by-key ReplaceAll) does not refine simultaneous substitution: %s" % implb.violation)
 
     per_suite = {}
+    groups = {}    # key of a defect class (or of one input) -> disagreements of all suites
     for r in results:
         s, name = r["suite"], r["suite"]["name"]
         chk.add_tlc(r["res"], "%s/%s" % (s["module"], name))
@@ -376,19 +414,24 @@ def check(chk):
             chk.cov["traces_validated_against_impl"] += n
         per_suite[name] = {"cases": n, "disagreements": len(real), "bounds": {k: v for k, v in s["consts"].items()},
                            "stats": r["stats"], "replayed_into_real_code": s["real"]}
-        groups = {}
+        if r["nposix"]:
+            per_suite[name]["posix_reading_validated_against_bash"] = r["nposix"]
         for m in real:
             if m["kind"] == "panic":
                 key, desc = "%s:panic" % name, "the function panicked: %s on %s" % (m["detail"], m["line"][:200])
             else:
                 key, desc = s["cls"](m)
-            groups.setdefault(key, []).append((desc, m))
-        for key, ms in sorted(groups.items()):
-            ms.sort(key=lambda dm: (len(json.dumps(dm[1])), json.dumps(dm[1], sort_keys=True)))
-            chk.reject(key, "%s  [%d cases of this class in suite %s]" % (ms[0][0], len(ms), name),
-                       {"suite": name, "count": len(ms), "smallest_examples": [m for _, m in ms[:12]]})
+            groups.setdefault(key, []).append((desc, name, m))
         if r["cases"]:
             chk.sample({"suite": name, "case": r["cases"][(sd * 7919) % n]}, limit=len(S))
+    for key, ms in sorted(groups.items()):
+        ms.sort(key=lambda dm: (len(json.dumps(dm[2])), json.dumps(dm[2], sort_keys=True)))
+        by_suite = {}
+        for _, name, _m in ms:
+            by_suite[name] = by_suite.get(name, 0) + 1
+        chk.reject(key, "%s  [%d cases: %s]" % (ms[0][0], len(ms), ", ".join("%s %d" % kv for kv in sorted(by_suite.items()))),
+                   {"count": len(ms), "by_suite": by_suite,
+                    "smallest_examples": [dict(m, suite=name) for _, name, m in ms[:12]]})
     chk.cov["suites"] = per_suite
     chk.cov["exhaustive"] = thorough
     chk.cov["rule"] = (
